@@ -1141,6 +1141,13 @@ func genC12(cw *caseWriter, seed uint64, tier string) {
 		}
 	}
 	vals = append(vals, true, false)
+	// numbers in several typed columns of one line, one of which refuses its value, through the STREAMER under a
+	// processor that carries on: the refused line has no output — numbers present in it are not written as null
+	for _, ty := range []string{"i8", "u64", "f32"} {
+		cols := []colDesc{{name: "a", format: "numeric", ty: ty}, {name: "x", format: "numeric", ty: "f64"}, {name: "u", format: "numeric", ty: "u64"}}
+		data := []byte("{\"a\":1,\"x\":0.5,\"u\":18446744073709551615}\n{\"a\":300.5,\"x\":0.5,\"u\":18446744073709551615}\n{\"a\":\"n/a\",\"x\":1,\"u\":7}\n{\"a\":2,\"x\":1,\"u\":7}\n")
+		emitStream(cw, "C12", cols, cols, "tolerant", chunk(data, []int{1 << 20}), nil, data, true)
+	}
 	// integer magnitudes carried by TEXT (what an untyped Numeric column holds when it was given a string): at and
 	// past the int64 bounds, the uint64 maximum, signed zero, 30 digits
 	for _, t := range []string{"18446744073709551615", "9223372036854775808", "-9223372036854775809", "9223372036854775807", "-0", "0", "123456789012345678901234567890", "1e2", "0.10", "1E+2"} {
